@@ -132,18 +132,41 @@ def ranks(fns):
     return rank, g
 
 
-def const_item(file, name):
+def first_assert(fn):
+    """total mode: a function whose first statement is `assert!(p.at(T![x]));` requires the next token to be x"""
+    body = fn["body"].lstrip("{").lstrip()
+    mt = re.match(r"assert!\(p\.at(?:_unmetered)?\(T!\[('.'|[^\]]+?)\]\)\);", body)
+    if mt:
+        from vlib.rules import Context
+        tab = _CTX.t_table()
+        key = mt.group(1).strip()
+        return f"next_kind(*old(p)) == TokenKind::{tab[key]}"
+    return None
+
+
+from vlib.rules import Context as _Context
+_CTX = _Context()
+
+
+def const_item(file, name, total=False):
     src = load_source(file)
     s, e = src.find_adt("const", name)
     text = src.text[s:e]
     has_eof = bool(re.search(r"T!\[eof\]", text))
     # `exec const NAME: &'static [TokenKind]` with a generated postcondition about Eof membership only
     ens = "" if has_eof else f"\n    ensures !{name}@.contains(TokenKind::Eof),\n"
+    extra_proof = ""
+    if total and not has_eof:
+        tab = _CTX.t_table()
+        elems = ["TokenKind::" + tab[k.strip()] for k in re.findall(r"T!\[('.'|[^\]]+?)\]", text[text.index("="):])]
+        lit = "seq![" + ", ".join(elems) + "]"
+        ens = f"\n    ensures !{name}@.contains(TokenKind::Eof), {name}@ =~= {lit},\n"
+        extra_proof = f" assert(r@ =~= {lit});"
     body = text[text.index("=") + 1:].rstrip().rstrip(";")
     new_head = f"pub exec const {name}: &'static [TokenKind]{ens}"
     return Adt(file=file, kw="const", name=name, rules=["T"],
                rewrites=[(re.compile(r"^(pub\s+)?const\s+" + name + r"\s*:\s*&\[TokenKind\]\s*=\s*", re.S), new_head + "{ let r: &'static [TokenKind] = ", 1),
-                         (re.compile(r";\s*$"), "; proof { lemma_no_eof(r@); } r }", 1)] if not has_eof else
+                         (re.compile(r";\s*$"), "; proof { lemma_no_eof(r@);" + extra_proof + " } r }", 1)] if not has_eof else
                [(re.compile(r"^(pub\s+)?const\s+" + name + r"\s*:\s*&\[TokenKind\]"), f"pub exec const {name}: &'static [TokenKind]", 1)])
 
 
@@ -193,12 +216,16 @@ def mk(kind, ev, name):
     return f"marker_ok_o({ev}, {name}.index)" if kind == "o" else f"marker_ok({ev}, {name}.index)"
 
 
-def build_items():
+def build_items(mode="partial", fuel=None):
+    fuel = fuel or {}
+    total = mode == "total"
+    FC, FIN, FLC = fuel.get("C", {}), fuel.get("IN", {}), fuel.get("LC", {})
+    consumes = set(fuel.get("consumes", []))
     fns, consts = discover()
     rank, g = ranks(fns)
     items = []
     for (f, c) in consts:
-        items.append(const_item(f, c))
+        items.append(const_item(f, c, total))
     from vlib.gen import find_loops
     for fn in fns:
         name = fn["name"]
@@ -221,6 +248,10 @@ def build_items():
                 req.append(f"marker_ok(old(p).events@, {n}.index)")
         if name in EXTRA_REQ:
             req.append(EXTRA_REQ[name])
+        if total:
+            fa = first_assert(fn)
+            if fa:
+                req.append(fa)
         ens = [COMMON_ENS.replace("{EX}", ex)]
         ret = fn["ret"]
         rname = None
@@ -248,7 +279,8 @@ def build_items():
             loops[k] = f"invariant {inv}\ndecreases mu(*p),"
         items.append(Fn(file=fn["file"], name=name, ret=rname, contract=contract, loops=loops,
                         attrs=ATTRS.get(name, ""),
-                        rules=["T", "fmtmsg", "assert_partial", "unreachable_partial", ("strip", "super::pattern::"), ("strip", "pattern::"), ("strip", "stmt::")],
+                        rules=(["T", "fmtmsg"] + ([] if total else ["assert_partial", "unreachable_partial"])
+                               + [("strip", "super::pattern::"), ("strip", "pattern::"), ("strip", "stmt::")]),
                         ghost=ghost,
                         obligation="uniform grammar contract: invariant wf kept, events only extended, termination measure non-increasing, "
                                    "recursion and every loop terminate" + (", progress when stalled" if name in PROGRESS else "")))
@@ -260,6 +292,7 @@ PROGRESS = {"expect_expr_with_message", "expect_expr_bp_with_message", "match_ar
 BIG = "#[verifier::rlimit(80)]\n#[verifier::spinoff_prover]"
 ATTRS = {"atom": BIG, "extern_decl_with_marker": BIG, "type_atom": BIG, "simple_pattern": BIG, "expr_bp": BIG, "block": BIG}
 EXTRA_ENS = {
+    "looks_like_struct_literal": "r ==> next_kind(*final(p)) == TokenKind::LBrace,",
     "file": "at_eof(*final(p)), balanced(final(p).events@),",
 }
 EXTRA_REQ = {
@@ -338,4 +371,5 @@ UNIT = Unit(
              "freedom from these particular panics is not claimed (it depends on exact fuel lower bounds)"],
     items=TYPES + PCORE_FNS + [GRAMMAR_LEMMAS] + [Raw(text=lambda: "")],
 )
-UNIT.items = TYPES + PCORE_FNS + [GRAMMAR_LEMMAS] + build_items()
+MODE = "total"   # every assert!/debug_assert!/unreachable!() of the grammar functions is an obligation
+UNIT.items = TYPES + PCORE_FNS + [GRAMMAR_LEMMAS] + build_items(MODE)
